@@ -22,6 +22,7 @@ type scenario struct {
 	plain   []byte
 	tape    []byte
 	armor   bool
+	step    int // > 0: the plaintext is written in pieces of this many bytes (io.Copy uses 32 KiB)
 }
 
 func (sc *scenario) rsx() string {
@@ -37,7 +38,7 @@ func (sc *scenario) describe() map[string]interface{} {
 	for _, p := range sc.parties {
 		names = append(names, p.name)
 	}
-	return map[string]interface{}{"recipients": names, "plaintext_len": len(sc.plain), "armor": sc.armor, "tape": hx(sc.tape)}
+	return map[string]interface{}{"recipients": names, "plaintext_len": len(sc.plain), "armor": sc.armor, "tape": hx(sc.tape), "write_step": sc.step}
 }
 
 // encryptImpl runs age.Encrypt + one Write + Close (+ armor) with the tape.
@@ -60,7 +61,13 @@ func encryptImpl(sc *scenario) (file []byte, err error, used int, sizes []int) {
 		used, sizes = tapeUsed()
 		return buf.Bytes(), err, used, sizes
 	}
-	if _, err := w.Write(sc.plain); err != nil {
+	if sc.step > 0 {
+		for off := 0; off < len(sc.plain); off += sc.step {
+			if _, err := w.Write(sc.plain[off:min(off+sc.step, len(sc.plain))]); err != nil {
+				return nil, err, 0, nil
+			}
+		}
+	} else if _, err := w.Write(sc.plain); err != nil {
 		return nil, err, 0, nil
 	}
 	if err := w.Close(); err != nil {
@@ -73,6 +80,42 @@ func encryptImpl(sc *scenario) (file []byte, err error, used int, sizes []int) {
 	}
 	used, sizes = tapeUsed()
 	return buf.Bytes(), nil, used, sizes
+}
+
+// randFaultSweep: Encrypt (and the writes after it) with the k-th read of the
+// CSPRNG failing once, for k = 0..5: when a read failed, Encrypt or a later
+// call must report an error.
+func (c *Ctx) randFaultSweep(sc *scenario) {
+	for k := 0; k < 6; k++ {
+		setTape(sc.tape)
+		setTapeFault(k)
+		var buf bytes.Buffer
+		rs := make([]age.Recipient, len(sc.parties))
+		for i, p := range sc.parties {
+			rs[i] = p.rcpt
+		}
+		w, err := age.Encrypt(&buf, rs...)
+		atEncrypt := buf.Len()
+		if err == nil {
+			_, err = w.Write(sc.plain)
+			if e := w.Close(); err == nil {
+				err = e
+			}
+		}
+		inj := tapeInjected()
+		clearTape()
+		in := sc.describe()
+		in["failing_csprng_read"] = k
+		if inj > 0 {
+			// (a failure of the LAST read, the payload nonce, comes after the header went out; earlier ones precede any write)
+			c.Oracle("entropy-failure-surfaces", err != nil, "csprng-fault-swallowed", in,
+				fmt.Sprintf("read #%d of crypto/rand failed, yet Encrypt/Write/Close all succeeded (%d bytes at the destination when Encrypt returned)", k, atEncrypt))
+			c.count("csprng-fault-injected")
+		} else {
+			c.Oracle("no-fault-no-error", err == nil, "csprng-sweep-baseline", in, fmt.Sprintf("no fault was injected but the session failed: %v", err))
+			c.count("csprng-fault-beyond-last-read")
+		}
+	}
 }
 
 // encryptImplNoTape: the same with the real CSPRNG.
@@ -145,7 +188,8 @@ func implOutcome(err error) string {
 }
 
 // decryptImpl: Decrypt + read everything.  Result string:
-//   (:ok plaintext outcome consulted)  |  (:err :nomatch consulted nerrs allIncorrect) | (:err :error consulted)
+//
+//	(:ok plaintext outcome consulted)  |  (:err :nomatch consulted nerrs allIncorrect) | (:err :error consulted)
 func decryptImpl(src io.Reader, armored bool, ids []age.Identity) (string, []byte, string) {
 	var log []int
 	wrapped := make([]age.Identity, len(ids))
